@@ -276,6 +276,11 @@ def mtuTerms (ents : List ASE) (sc peer : Nat) : List Nat :=
 /-- all MTU values along the traversed part of a solution -/
 def allMtuTerms (es : List Edge) : List Nat := es.flatMap fun e => mtuTerms e.seg.ents e.sc e.peer
 
+/-- element-wise relation between two lists of equal length -/
+inductive Rel2 {α β : Type} (R : α → β → Prop) : List α → List β → Prop
+  | nil : Rel2 R [] []
+  | cons {a b as bs} : R a b → Rel2 R as bs → Rel2 R (a :: as) (b :: bs)
+
 /-- the admissible sequences of segment kinds -/
 def kindShapes : List (List Kind) :=
   [[.up], [.core], [.down], [.up, .core], [.up, .down], [.core, .down], [.up, .core, .down]]
@@ -405,5 +410,100 @@ def combineSpec (ups cores downs : List Seg) (src dst : Nat) (findAllIdentical :
     List Path :=
   let ps := filterLongPaths (sortByWeight (pathsOf (allJoins ups cores downs src dst)))
   if findAllIdentical then ps else filterDuplicates ps
+
+/-! ## The directed multigraph of graph.go and the search over it -/
+
+/-- one entry `Adjacencies[src][dst][segment] = edge`; `segIdx` stands for the `*inputSegment`
+pointer (position of the segment in `ups ++ cores ++ downs`) -/
+structure GEdge where
+  src : Vertex
+  dst : Vertex
+  segIdx : Nat
+  e : Edge
+deriving DecidableEq, Repr
+
+abbrev DMG := List GEdge
+
+def GEdge.sameKey (a b : GEdge) : Bool := a.src == b.src && a.dst == b.dst && a.segIdx == b.segIdx
+
+/-- `dmg.AddEdge`: `neighborMap[dst][segment] = e` overwrites an entry with the same key -/
+def addEdge (g : DMG) (x : GEdge) : DMG :=
+  if g.any (·.sameKey x) then g.map fun y => if y.sameKey x then x else y else g ++ [x]
+
+/-- the `tuples` of one AS entry in `traverseSegment` (up segment orientation): the AS vertex
+unless this is the last entry, then one peering vertex per peer entry -/
+def entryTuples (s : Seg) (kind : Kind) (segIdx : Nat) (pinned : Nat) (ie : Nat × ASE) : List GEdge :=
+  let tuples : List (Vertex × Nat) :=
+    (if ie.1 + 1 ≠ s.ents.length then [(vIA ie.2.ia, 0)] else []) ++
+    (indexedFrom 0 ie.2.peers).map fun (kp : Nat × PeerE) =>
+      (vPeering ie.2.ia kp.2.hf.inIf kp.2.peer kp.2.peerIf, kp.1 + 1)
+  tuples.map fun (t : Vertex × Nat) =>
+    if kind = Kind.down then (⟨t.1.reverse, vIA pinned, segIdx, ⟨s, kind, ie.1, t.2⟩⟩ : GEdge)
+    else ⟨vIA pinned, t.1, segIdx, ⟨s, kind, ie.1, t.2⟩⟩
+
+/-- `dmg.traverseSegment`; `none` = index out of range on an empty segment (Go: panic) -/
+def traverseSegment (g : DMG) (s : Seg) (kind : Kind) (segIdx : Nat) : Option DMG :=
+  match lastIA s, firstIA s with
+  | some l, some f =>
+    if kind = .core then some (addEdge g ⟨vIA l, vIA f, segIdx, ⟨s, .core, 0, 0⟩⟩)
+    else some (((indexedFrom 0 s.ents).reverse.flatMap (entryTuples s kind segIdx l)).foldl addEdge g)
+  | _, _ => none
+
+def traverseAll (kind : Kind) : DMG → Nat → List Seg → Option DMG
+  | g, _, [] => some g
+  | g, i, s :: ss =>
+    match traverseSegment g s kind i with
+    | none => none
+    | some g' => traverseAll kind g' (i + 1) ss
+
+/-- `newDMG` -/
+def newDMG (ups cores downs : List Seg) : Option DMG :=
+  match traverseAll .up [] 0 ups with
+  | none => none
+  | some g1 =>
+    match traverseAll .core g1 ups.length cores with
+    | none => none
+    | some g2 => traverseAll .down g2 (ups.length + cores.length) downs
+
+/-- `validNextSeg` -/
+def validNextSeg (cur : Option Kind) (next : Kind) : Bool :=
+  match cur with
+  | none => true
+  | some .up => next == .core || next == .down
+  | some .core => next == .down
+  | some .down => false
+
+/-- `pathSolution` during the search: trail, current vertex, current segment kind -/
+structure Sol where
+  edges : List Edge
+  cur : Vertex
+  kind : Option Kind
+deriving DecidableEq, Repr
+
+/-- the inner loops of `GetPaths` for one dequeued solution -/
+def expand (g : DMG) (s : Sol) : List Sol :=
+  (g.filter fun x => x.src == s.cur && validNextSeg s.kind x.e.kind).map fun x =>
+    ⟨s.edges ++ [x.e], x.dst, some x.e.kind⟩
+
+/-- `fuel` rounds of the queue loop of `GetPaths`, one BFS level per round: solutions that reached
+`dst` are collected and not extended, the others form the next queue -/
+def bfs (g : DMG) (dst : Vertex) : Nat → List Sol → List (List Edge)
+  | 0, _ => []
+  | n + 1, queue =>
+    let new := queue.flatMap (expand g)
+    (new.filter fun s => s.cur == dst).map (·.edges) ++ bfs g dst n (new.filter fun s => s.cur != dst)
+
+/-- `GetPaths` without the final sort; four rounds exhaust the queue (`validNextSeg` admits at
+most three edges, see `Scion.C29.bfs_fuel`) -/
+def getPaths (g : DMG) (src dst : Nat) : List (List Edge) := bfs g (vIA dst) 4 [⟨[], vIA src, none⟩]
+
+/-- `Combine` over the graph model; `none` = panic on an empty segment -/
+def combineDMG (ups cores downs : List Seg) (src dst : Nat) (findAllIdentical : Bool) :
+    Option (List Path) :=
+  match newDMG ups cores downs with
+  | none => none
+  | some g =>
+    let ps := filterLongPaths (sortByWeight (pathsOf (getPaths g src dst)))
+    some (if findAllIdentical then ps else filterDuplicates ps)
 
 end Scion.Combinator
